@@ -42,6 +42,8 @@ LRULE = ("plans generated from mix(VERIF_SEED, i) by the %s generator; executed 
 CHECKS = {
     "C01": simlib("C01", LRULE % "C01 stream (0-6 structurally generated valid messages of every type/field/nesting shape and both byte orders, targeted shapes, optionally one single-site corruption — structural or byte-level — then more bytes; random max_message_size; arrival chunking, short reads, EINTR, allocation failure inside the loader)",
                   probes=["stream_with_invalid_message", "multi_message_stream", "oom_fired"]),
+    "C17": simlib("C17", LRULE % "C17 (up to 8 outstanding calls with timeouts from 0 ms to infinite, observed by notify callback / polling / blocking; cancel, dispatch, read_write_dispatch, loop iterations, clock advances; peer replies in any order, duplicated, with unknown serials, split across writes, never, or closes; serial counter optionally started just below the 32-bit wrap)",
+                  probes=["blocked", "cancelled", "cancel_after_completion", "several_calls", "close_with_several_outstanding", "peer_action_during_block"]),
     "C11": simlib("C11", LRULE % "C11 stream (1-8 valid messages of mixed sizes and byte orders, optionally an invalid one and further bytes; handshake and first message in one write or apart; partitions: all-one-byte, single cut, header-biased cuts, random cuts; independent read-size knob; unsplit fault-free control delivery in the same run)",
                   probes=["stream_with_invalid_message", "multi_message_stream"]),
     "SMOKE": simbus("SMOKE", RULE % "smoke", quick_s=5, thorough_s=10),
@@ -161,6 +163,18 @@ MANIFEST_TEXT = {
                "DESIGN.md section 4 C11", "deterministic simulation, seeded search over stream partitions and read schedules, metamorphic oracle",
                note="Trusted base: simulated kernel stream semantics, independent codec. The writer side (partial writes of queued outgoing messages) is exercised by every simbus check "
                     "(short-write / EAGAIN faults on the daemon's sockets, small peer buffers), where a corrupted outgoing stream fails the codec at the receiving actor. Sampling: evidence, not proof."),
+    "C17": _mt("Seeded search over schedules of a real DBusConnection (client side, main-loop glue owned by the harness) against a scripted wire peer: up to 8 outstanding calls with "
+               "timeouts from 0 ms to infinite, completion observed by notify callback, polling or dbus_pending_call_block(); cancel, unref, dispatch, read_write_dispatch, loop "
+               "iterations with short reads / EINTR / spurious EAGAIN and virtual-clock advances at arbitrary points; the peer replies in any order, twice, with unknown serials, split "
+               "across writes, never, or closes - also while the application is blocked inside the library (the simulated kernel's poll hands control to the plan's next peer actions). "
+               "Oracle per call: completes at most once; a notify function runs exactly once and never for a cancelled call; the stolen reply carries the call's serial and is the FIRST "
+               "reply the peer wrote for it, or a locally generated error only once the virtual deadline passed or the connection is gone; bounded liveness: after faults stop, all "
+               "peer bytes are delivered and the clock has passed every finite deadline, every call that was not cancelled is complete. Serials: non-zero and pairwise distinct, with "
+               "the counter optionally started just below the 32-bit wrap (hook H4).",
+               "DESIGN.md section 4 C17", "deterministic simulation, seeded schedule search (application / peer / clock interleavings), per-call reference model oracle with bounded liveness",
+               note="Trusted base: simulated kernel (stream, poll, clock), independent codec for the peer side, the per-call model. Single-threaded schedules only: the 'several threads' part of the "
+                    "quantifier is not explored (a serialising scheduler over real threads was not built; DESIGN.md says why). One listed known finding (calls outstanding at disconnect are "
+                    "dropped rather than completed) is recognised by its exact condition inside the oracle. Sampling: evidence, not proof."),
 }
 
 NOT_APPLICABLE = [
@@ -170,6 +184,6 @@ NOT_APPLICABLE = [
 ]
 
 # properties whose check is planned but not finished: not claimed, and listed in not_applicable with that reason
-NOT_CLAIMED_YET = ["C08", "C15", "C17", "C19", "C20"]
+NOT_CLAIMED_YET = ["C08", "C15", "C19", "C20"]
 for _p in NOT_CLAIMED_YET:
     NOT_APPLICABLE.append({"property_id": _p, "reason": "not claimed yet: the simulation check for this property is designed (DESIGN.md section 4) but not finished; it is applicable to the technique and will be claimed when its check passes the determinism and sensitivity gates"})
